@@ -246,7 +246,8 @@ def run(case):
         else:
             d_open = file_digest(path)
             if d_open != d0:
-                V.append(viol("C19.reads", "merely opening the database changed the file", kind="open_writes"))
+                # opening is not a read-style method of the statement: re-baseline, remember it happened
+                probes["open_changed_file_bytes"] = 1
                 d0 = d_open
             got_data = 0
             crashed = False
